@@ -485,7 +485,13 @@ def program(rng, **kw):
         else:
             lines.append(fs)
         entries.append("fs_main")
-    if nentry == 0 or rng.random() < 0.3:
+    library = nentry == 0 and rng.random() < 0.3
+    if library:
+        # a module WITHOUT any entry point (a file of shared declarations): the same rule decides which structs are emitted -
+        # function-local, helper-only and unused structs are not
+        lines.append("struct HelperArg { dir: vec3<f32>, t: f32 }\nstruct HelperRet { hit: vec3<f32>, ok: u32 }")
+        lines.append("fn trace(r: HelperArg) -> HelperRet { %s var o: HelperRet; o.hit = r.dir * r.t; return o; }" % body_local)
+    elif nentry == 0 or rng.random() < 0.3:
         lines.append("@compute @workgroup_size(1) fn cs_main() { %s }" % body_local)
         entries.append("cs_main")
 
